@@ -82,10 +82,11 @@ def relation(res, recs_per_line):
             return ("json", flat), None
         except Exception as ex:
             return None, "single-line JSON does not parse: %s" % ex
-    file_parallel = via in ("file", "inplace")          # execute_multi_thread_files_linewise: per-line format, join ""
-    if file_parallel:
+    if via in ("file", "inplace", "inplace-serial"):    # file drivers render line by line and join with ""
         return ("bytes", b"".join(stripped)), None
-    # stdin (both) and serial file paths: all records formatted at once, then one writeln
+    if via == "file-serial":                            # … the serial one frames the file with one writeln!
+        return ("bytes", b"".join(stripped) + b"\n"), None
+    # stdin (serial and parallel): all records formatted at once, then one writeln
     if n == 1:
         body = stripped[0]
     else:
@@ -96,8 +97,6 @@ def relation(res, recs_per_line):
             else:
                 pieces.append(s)
         body = b"".join(pieces)
-    if via == "inplace-serial":
-        return ("bytes", body), None
     return ("bytes", body + b"\n"), None
 
 
